@@ -49,6 +49,8 @@ Proof.
   destruct (N.leb_spec 0x400000000 size); [lia|].
   rewrite skipn_app_exact by reflexivity.
   assert (La : N.to_nat size = length a) by (unfold nlen in Sa; lia).
+  destruct (N.ltb_spec (N.of_nat (length (a ++ extra))) size) as [Bad|_];
+    [rewrite app_length in Bad; lia|].
   destruct (Nat.ltb_spec (length (a ++ extra)) (N.to_nat size)) as [Bad|_];
     [rewrite app_length in Bad; lia|].
   rewrite firstn_app_exact, skipn_app_exact by exact La. reflexivity.
